@@ -49,6 +49,18 @@ package main
 
 // Every option that exists on both channels: a non-blank parameter wins, otherwise the value read
 // from YAML (the prior field value) is kept; lists are split at "+" and are sets.
+// the option fields of the configuration are assigned by readFromCLI only (and by the YAML decoder): nothing
+// rewrites a value after the two channels have been merged
+//@ fieldwriters Config.DurationCustomType: Config.readFromCLI
+//@ fieldwriters Config.DefaultPackageName: Config.readFromCLI
+//@ fieldwriters Config.TargetPackageName: Config.readFromCLI
+//@ fieldwriters Config.Sort: Config.readFromCLI
+//@ fieldwriters Config.Types: Config.readFromCLI
+//@ fieldwriters Config.ExcludeFields: Config.readFromCLI
+//@ fieldwriters Config.ComputedFields: Config.readFromCLI
+//@ fieldwriters Config.RequiredFields: Config.readFromCLI
+//@ fieldwriters Config.SensitiveFields: Config.readFromCLI
+
 //@ func Config.readFromCLI
 //@ requires c != nil
 //@ ghost k0 string
@@ -79,6 +91,8 @@ package main
 //@ ensures [C16] imp(path == "", result == nil)
 //@ ensures [C16] imp(path != "" && second(ioutil.ReadFile(path)) != nil, result != nil)
 //@ ensures [C16] imp(path != "" && second(ioutil.ReadFile(path)) == nil && yamlErr(first(ioutil.ReadFile(path))) != nil, result != nil)
+//@ # a file that is read and parsed is accepted whatever it contains: what is missing may still come from the command line
+//@ ensures [C16] imp(path != "" && second(ioutil.ReadFile(path)) == nil && yamlErr(first(ioutil.ReadFile(path))) == nil, result == nil)
 
 // errors of either step fail the whole configuration; no types => error; a parameter given on the
 // command line determines the field whatever the YAML file said
@@ -97,7 +111,7 @@ package main
 //@ ensures [C16] imp(result1 == nil, result0 != nil && len(result0.Types) > 0)
 //@ ensures [C16] imp(result1 != nil, result0 == nil)
 //@ ensures [C16,C14] imp(result1 == nil, cliList("types", result0.Types) && cliList("exclude_fields", result0.ExcludeFields) && cliList("computed_fields", result0.ComputedFields) && cliList("required_fields", result0.RequiredFields) && cliList("sensitive", result0.SensitiveFields))
-//@ ensures [C16] imp(result1 == nil, cliStr("default_package_name", result0.DefaultPackageName) && cliStr("target_package_name", result0.TargetPackageName) && cliStr("custom_duration", result0.DurationCustomType))
+//@ ensures [C16,C13] imp(result1 == nil, cliStr("default_package_name", result0.DefaultPackageName) && cliStr("target_package_name", result0.TargetPackageName) && cliStr("custom_duration", result0.DurationCustomType))
 
 // ===================================================================== field_descriptor_proto_ext.go, field_build_context.go
 
